@@ -545,6 +545,10 @@ class Blockwise(ArrayExpr):
             elif shuffle_ind in ind:
                 # Find the axis in this input that corresponds to shuffle_ind
                 input_axis = ind.index(shuffle_ind)
+                if arr.shape[input_axis] != self.shape[axis]:
+                    # Broadcast or unaligned operand axis: the output indexer
+                    # does not address the same positions of this operand.
+                    return None
                 shuffled = Shuffle(arr, shuffle_expr.indexer, input_axis, shuffle_expr.operand("name"))
                 new_args.extend([shuffled, ind])
             else:
